@@ -111,7 +111,7 @@ def _decode_trace_leg(rep, tier, pid):
     from concurrent.futures import ProcessPoolExecutor
     from .common import NCPU, seed
     from . import schema as S
-    per = (4, 3, 6) if tier == "quick" else (24, 5, 12)
+    per = (4, 3, 6) if tier == "quick" else (12, 4, 10)
     jobs = [(seed() * 1000 + 500 + w, per[0], per[1], per[2], {"scratch": scratch_dir("dr")}) for w in range(NCPU)]
     recs = []
     with ProcessPoolExecutor(max_workers=NCPU) as ex:
